@@ -322,7 +322,19 @@ func (p *Pipeline) Run() *Result {
 			}
 		}
 		mfails = append(mfails, Monitor(p.Prop, cr.c, cr.sch, cr.obs)...)
-		for _, f := range mfails {
+		unlisted := map[int]bool{}
+		if d != nil {
+			// the model reproduces every recorded finding bug for bug: on a case where model and
+			// implementation disagree a failure is not (only) the recorded behaviour, whatever its shape
+			for k := range mfails {
+				if mfails[k].Finding != "" {
+					mfails[k].Msg += " (not the recorded finding " + mfails[k].Finding + ": the model, which reproduces it, behaves differently on this case)"
+					mfails[k].Finding = ""
+					unlisted[k] = true
+				}
+			}
+		}
+		for k, f := range mfails {
 			key := f.Finding + "|" + msgKey(f.Msg)
 			if failSeen[key] {
 				continue
@@ -330,7 +342,7 @@ func (p *Pipeline) Run() *Result {
 			failSeen[key] = true
 			pre := msgKey(f.Msg)
 			small := cr.c
-			if !strings.HasPrefix(f.Msg, "nondeterministic") {
+			if !strings.HasPrefix(f.Msg, "nondeterministic") && !unlisted[k] {
 				small = shrink(cr.c, func(c Case) bool { return p.failsMonitor(c, pre, f.Finding) })
 			}
 			name := fmt.Sprintf("%s-seed%d-fail%d.case", p.Prop, p.Seed, len(res.Failures))
